@@ -11,6 +11,7 @@ case "$which" in
   expand) pkg=internal/expand; src=expand_findings_test.go;;
   relationtuple) pkg=internal/relationtuple; src=relationtuple_findings_test.go;;
   c11) pkg=internal/check; src=c11_findings_test.go;;
+  c01) pkg=internal/check; src=c01_findings_test.go;;
   c19) pkg=internal/driver/config; src=c19_findings_test.go;;
   *) echo "unknown replay set $which"; exit 2;;
 esac
